@@ -70,3 +70,10 @@ Theorem C18_fol_contradiction_loss : forall k reg s,
   0 <= f_contradiction_loss k reg s /\ (f_contradiction_loss k reg s == 0 <-> f_has_contradiction k reg s = false).
 Proof. intros k reg s Ha HR. split; [apply f_contradiction_loss_nonneg | apply f_contradiction_loss_zero_iff]; assumption. Qed.
 Print Assumptions C18_fol_contradiction_loss.
+
+(* first-order supervised loss (MSE over the labelled groundings present in the formula's table): non-negative, zero
+   exactly when every such row equals its label -- whatever the order in which labels or rows are listed *)
+Theorem C18_fol_supervised_loss : forall s i labs v, f_supervised_loss s i labs = Some v ->
+  0 <= v /\ (v == 0 <-> forall g l, In (g, l) labs -> tmem (ftab s i) g = true -> bnd_eq (fget s i g) l).
+Proof. exact f_supervised_loss_spec. Qed.
+Print Assumptions C18_fol_supervised_loss.
